@@ -55,6 +55,8 @@ func main() {
 					cases = append(cases, g.extremeCase(i))
 				case "kernel":
 					cases = append(cases, g.kernelCase(i))
+				case "kco":
+					cases = append(cases, g.coCase(i))
 				default:
 					cases = append(cases, g.Case(i))
 				}
